@@ -265,16 +265,18 @@ def run(chk):
     # ---- late ages, every row: the property quantifies over ages up to 1e6 Myr (turn-off masses down to ~0.3 Msun, where some rows' WD
     #      relation has already dropped to zero or below) ------------------------------------------------------------------------------
     late_exprs, late_meta = [], []
-    for feh, a0, a1, a2 in rows:
+    late_rows = [(r_, None) for r_ in rows] + [(r_, [1, 1, 2]) for r_ in (rows if chk.tier == "thorough" else rng.sample(rows, 5))]
+    for (feh, a0, a1, a2), coarse in late_rows:
         try:
-            car = U.base_emf(FeH=feh)
+            # (second pass: coarse layouts, whose LOWEST stellar bin [0.1, 0.5] is the one turning off beyond ~8e4 Myr)
+            car = U.base_emf(FeH=feh) if coarse is None else U.base_emf(FeH=feh, nbins=coarse)
         except Exception as e:  # noqa
             chk.notes.append("carrier could not be built at FeH=%s: %s" % (feh, type(e).__name__))
             continue
         mb = car.massbins
         y0 = mb.initial_values(N0=car.N0)
         for _ in range(5 if chk.tier == "quick" else 30):
-            t = 10 ** rng.uniform(math.log10(1.4e4), 6.0)
+            t = 10 ** rng.uniform(math.log10(1.4e4), 6.0) if coarse is None else 10 ** rng.uniform(math.log10(9e4), 6.0)
             isev = int(np.where(t > car.tms_u)[0][0])
             mto = float(car.compute_mto(np.array(t)))
             m1 = float(mb.bins.MS.lower[isev])
@@ -294,7 +296,7 @@ def run(chk):
             chk.note_distinct(dict(feh=feh, t=t, late=True))
             if abs(used - fd) > 1e-5 * abs(fd):
                 chk.fail("sweep speed used by the evolution equals -d(m_to)/dt (main model)",
-                         dict(feh=feh, t=t, m_to=mto, m_rem=float(car.IFMR.predict(mto))), dict(used=used, finite_difference=fd))
+                         dict(feh=feh, t=t, m_to=mto, m_rem=float(car.IFMR.predict(mto)), nbins=coarse or [5, 5, 20], turnoff_bin=isev), dict(used=used, finite_difference=fd))
             late_exprs.append("dmdt (O:=F_ops) %s %s" % (" ".join(map(C.fl, (a0, a1, a2))), C.fl(t)))
             late_meta.append(dict(feh=feh, t=t, used=used))
     for me, mv in zip(late_meta, C.eval_cases("C14late", IMPORTS, "", late_exprs)):
